@@ -36,7 +36,11 @@ let shape (w : sworld) (p : str) : string =
   | WNode (_, _, _, n) ->
       (match List.nth_opt w.sw_fs.f_heap (int_of_nat n) with
        | Some (NSym _) -> "s" | Some (NDir _) -> "D" | Some (NFile _) -> "F" | None -> "?")
-  | WNeg _ -> "n"
+  | WNeg (par, _, _) ->
+      (* missing last element; N when its parent directory has the set-group-id bit *)
+      (match List.nth_opt w.sw_fs.f_heap (int_of_nat par) with
+       | Some (NDir (_, m)) when (int_of_n m.m_mode) land (1 lsl 22) <> 0 -> "N"
+       | _ -> "n")
   | WParent _ -> "?"
   | WErr _ -> "x"
 
@@ -50,6 +54,18 @@ let shapes (w : sworld) (c : call) : string =
   | CRename (_, o, n) | CLink (_, o, n) -> sh o ^ sh n
   | CSymlink (_, t, n) -> (if t = [] then "e" else "t") ^ sh n
   | _ -> "-"
+
+let is_rel (p : str) = match p with c :: _ -> int_of_n c <> 47 | [] -> true
+let uses_cwd (c : call) : bool =
+  match c with
+  | CGetwd _ -> true
+  | CMkdir (_, p, _) | CMkdirAll (_, p, _) | COpenFile (_, p, _, _) | CRemove (_, p) | CRemoveAll (_, p)
+  | CReadlink (_, p) | CTruncate (_, p, _) | CChmod (_, p, _) | CChown (_, p, _, _) | CLchown (_, p, _, _)
+  | CChtimes (_, p) | CChdir (_, p) | CStat (_, p) | CLstat (_, p) | CEvalSymlinks (_, p) | CReadDir (_, p)
+  | CReadFile (_, p) | CWriteFile (_, p, _, _) -> is_rel p
+  | CRename (_, o, n) | CLink (_, o, n) -> is_rel o || is_rel n
+  | CSymlink (_, _, n) -> is_rel n
+  | _ -> false
 
 let cwd_alive (w : sworld) : bool =
   let v = w.sw_sv.sv_view and h = w.sw_fs.f_heap in
@@ -65,8 +81,14 @@ let run () =
          | [_; _; um; snapmode] ->
              let w = ref (spec_init (n_of_int (int_of_string um))) in
              let outs = ref [] in
+             (* the working directory as MemFS keeps it: the path string at the time of the last Chdir *)
+             let cwdstr = ref (str_of_string "/") in
+             let cur_path (w : sworld) =
+               let v = w.sw_sv.sv_view and h = w.sw_fs.f_heap in
+               path_of (S (nat_of_int (List.length h))) h v.v_root w.sw_sv.sv_cwd [] in
              List.iter (fun o ->
                let c = Drv_fs.parse_op (split_ws o) in
+               let moved = not (cwd_alive !w) || cur_path !w <> !cwdstr in
                let kf = match kf_class !w c with None -> "-" | Some k -> string_of_int (int_of_n k) in
                let (w', r) = spec_step true !w c in
                let sr = show_sres r and ss = snap snapmode w' in
@@ -74,7 +96,9 @@ let run () =
                let (wi, ri) = impl_step_proj (world_of !w) c in
                let same = show_sres ri = sr
                           && Drv_fs.snapshot_text wi = Drv_fs.snapshot_text (world_of w') in
-               outs := (Printf.sprintf "%s%s ~%s ~%s ~%s ~%s" sr ss kf (if same then "T" else "F") (shapes !w c)
+               (match c, r with CChdir _, SOk -> cwdstr := cur_path w' | _ -> ());
+               outs := (Printf.sprintf "%s%s ~%s ~%s ~%s%s ~%s" sr ss kf (if same then "T" else "F")
+                          (if moved && uses_cwd c then "m" else "") (shapes !w c)
                           (if cwd_alive w' then "A" else "D")) :: !outs;
                w := w') ops;
              print_endline (String.concat " | " (List.rev !outs))
